@@ -470,9 +470,9 @@ impl World {
 fn node_layer(rep: &Report, tier: Tier) {
     let t0 = Instant::now();
     // family 1: V=2 versions with batches, to fix-point or cap
-    let cap_s = tier.pick(35, 900);
+    let cap_s = tier.pick(240, 900);
     let w = World::build(tier.pick(2, 3));
-    let lim = Limits { max_depth: tier.pick(3, 6), max_execs: tier.pick(6000, 150_000), deadline: Some(t0 + Duration::from_secs(cap_s)) };
+    let lim = Limits { max_depth: tier.pick(3, 6), max_execs: tier.pick(2500, 150_000), deadline: Some(t0 + Duration::from_secs(cap_s)) };
     let stats = replay_bfs(rep, vec![vec![]], &lim, |h| w.run(h));
     record_stats(rep, "node_layer_", &stats);
     rep.set("node_layer", json!({"versions": w.v, "last_seq": 2, "alphabet": w.alphabet(true).len() + 2, "states": stats.states,
